@@ -70,6 +70,25 @@ template <class D> static void far_sweep(const char* name, long samples, bool on
     catch (const std::exception& e) { fail("'" + text + "' does not parse back: " + e.what()); } }
   printf("RESULT %s evaluations=%ld failures=%ld range=%ld pseudo-random instants over the whole int64 range + the 64 extreme counts, render + parse back, against a closed-form __int128 calendar\n", name, evals, fails, samples);
 }
+// ---- text -> time point over dates of EVERY year magnitude (also far outside the target's range): the instant in __int128 decides ----
+template <class D> static void parse_far(const char* name, long samples) {
+  cur = name; evals = 0; fails = 0; const mint num = D::period::num, den = D::period::den; unsigned long long x = 0xD1B54A32D192ED03ull; long accepted = 0, refused = 0;
+  for (long i = 0; i < samples; i++) { x ^= x << 13; x ^= x >> 7; x ^= x << 17; long yr = (long)x >> (i % 64); unsigned long long r = x * 0x9E3779B97F4A7C15ull;
+    if (i % 7 == 0) { mint span = (mint)INT64_MAX * num / den / 31556952; yr = (long)((i & 8 ? span : -span) + 1970 + (long)(r % 5) - 2); }   /* years around the edge of the target's range */
+    int m = 1 + (int)(r % 12), d = 1 + (int)((r >> 8) % 28), h = (int)((r >> 16) % 24), mi = (int)((r >> 24) % 60), sc = (int)((r >> 32) % 60); if ((r >> 40) % 4 == 0) { h = mi = sc = 0; } if ((r >> 44) % 16 == 0 && leap128(yr)) { m = 2; d = 29; }
+    mint day = days_before_year(yr); static const int t[] = {31, 28, 31, 30, 31, 30, 31, 31, 30, 31, 30, 31}; for (int k = 0; k < m - 1; k++) day += t[k] + (k == 1 && leap128(yr) ? 1 : 0); day += d - 1;
+    mint secs = day * 86400 + h * 3600 + mi * 60 + sc; mint ticks_num = secs * den; bool exact = ticks_num % num == 0; mint ticks = exact ? ticks_num / num : 0;
+    bool in_range = exact && ticks >= (mint)INT64_MIN && ticks <= (mint)INT64_MAX;
+    /* the lowest representable day is refused although representable: known finding KF-C15-lowest-day-parse, checked by far_kf_* */
+    if (in_range && (day * 86400) * den < (mint)INT64_MIN * num) continue;
+    char tail[32]; snprintf(tail, sizeof tail, "-%02d-%02dT%02d:%02d:%02dZ", m, d, h, mi, sc); std::string text = year_text(yr) + tail; ++evals;
+    try { auto tp = Convert::To<time_point<system_clock, D>>(text); ++accepted;
+      if (!in_range) fail("'" + text + "' denotes an instant the target cannot represent but parsed to " + std::to_string(tp.time_since_epoch().count()) + " instead of raising");
+      else if ((mint)tp.time_since_epoch().count() != ticks) fail("'" + text + "' parsed to " + std::to_string(tp.time_since_epoch().count()) + " instead of " + std::to_string((long)ticks)); }
+    catch (const std::out_of_range& e) { ++refused; if (in_range) fail("'" + text + "' is representable (" + std::to_string((long)ticks) + ") but raised " + e.what()); }
+    catch (const std::exception& e) { fail("'" + text + "' raised " + e.what()); } }
+  printf("RESULT %s evaluations=%ld failures=%ld range=%ld pseudo-random valid date-times with years of every magnitude (1/7 at the edge of the target's range): accepted %ld exact, refused %ld with out_of_range, decided by a closed-form __int128 calendar\n", name, evals, fails, samples, accepted, refused);
+}
 int main(int argc, char** argv) {
   const char* which = argc > 1 ? argv[1] : ""; bool thorough = argc > 2 && !strcmp(argv[2], "thorough");
   long back = thorough ? 31970 : 12370, fwd = thorough ? 98030 : 18030;   // quick: -10400..+20000 ; thorough: -30000..+100000
@@ -87,6 +106,13 @@ int main(int argc, char** argv) {
   else if (!strcmp(which, "far_kf_s")) far_sweep<seconds>("far_kf_s", 64, true);
   else if (!strcmp(which, "far_kf_min")) far_sweep<minutes>("far_kf_min", 64, true);
   else if (!strcmp(which, "far_kf_h")) far_sweep<hours>("far_kf_h", 64, true);
+  else if (!strcmp(which, "parse_far_ns")) parse_far<nanoseconds>("parse_far_ns", thorough ? 20000000 : 2000000);
+  else if (!strcmp(which, "parse_far_us")) parse_far<microseconds>("parse_far_us", thorough ? 20000000 : 2000000);
+  else if (!strcmp(which, "parse_far_ms")) parse_far<milliseconds>("parse_far_ms", thorough ? 20000000 : 2000000);
+  else if (!strcmp(which, "parse_far_s")) parse_far<seconds>("parse_far_s", thorough ? 20000000 : 2000000);
+  else if (!strcmp(which, "parse_far_min")) parse_far<minutes>("parse_far_min", thorough ? 20000000 : 2000000);
+  else if (!strcmp(which, "parse_far_h")) parse_far<hours>("parse_far_h", thorough ? 20000000 : 2000000);
+  else if (!strcmp(which, "parse_far_d")) parse_far<days_t>("parse_far_d", thorough ? 20000000 : 2000000);
   else { puts("unknown job"); return 2; }
   return 0;
 }
